@@ -129,7 +129,8 @@ type Node struct {
 	Height   int
 	Work     *big.Int // cumulative
 	Children []*Node
-	Seq      int // creation order
+	Seq      int   // creation order
+	Far      *Node // ancestor at the largest multiple of 64 below this height (skip pointer)
 }
 
 type Tree struct {
@@ -156,27 +157,47 @@ func (t *Tree) AddChild(raw RawHeader) *Node {
 	t.seq++
 	n := &Node{Label: fmt.Sprintf("n%d", t.seq), Hash: h, Raw: raw, Parent: p, Height: p.Height + 1,
 		Work: new(big.Int).Add(p.Work, BlockWork(raw.Bits)), Seq: t.seq}
+	if p.Height%64 == 0 {
+		n.Far = p
+	} else {
+		n.Far = p.Far
+	}
 	p.Children = append(p.Children, n)
 	t.ByHash[h] = n
 	return n
 }
 
-func IsAncestorOrEqual(a, b *Node) bool {
-	for b != nil && b.Height > a.Height {
-		b = b.Parent
+// up returns the ancestor of n at height h (h <= n.Height) using the skip pointers.
+func up(n *Node, h int) *Node {
+	for n.Height > h {
+		if n.Far != nil && n.Far.Height >= h {
+			n = n.Far
+		} else {
+			n = n.Parent
+		}
 	}
-	return a == b
+	return n
+}
+
+func IsAncestorOrEqual(a, b *Node) bool {
+	if b == nil || a == nil || b.Height < a.Height {
+		return false
+	}
+	return up(b, a.Height) == a
 }
 
 func LCA(a, b *Node) *Node {
-	for a.Height > b.Height {
-		a = a.Parent
-	}
-	for b.Height > a.Height {
-		b = b.Parent
+	if a.Height > b.Height {
+		a = up(a, b.Height)
+	} else {
+		b = up(b, a.Height)
 	}
 	for a != b {
-		a, b = a.Parent, b.Parent
+		if a.Far != nil && b.Far != nil && a.Far != b.Far {
+			a, b = a.Far, b.Far
+		} else {
+			a, b = a.Parent, b.Parent
+		}
 	}
 	return a
 }
@@ -194,10 +215,7 @@ func AncestorAt(n *Node, height int) *Node {
 	if height < 0 || height > n.Height {
 		return nil
 	}
-	for n.Height > height {
-		n = n.Parent
-	}
-	return n
+	return up(n, height)
 }
 
 // Set is a set of nodes (an instance's accepted or held headers).
